@@ -2515,7 +2515,11 @@ def add_row_margin(
     pd.DataFrame
         DataFrame with an additional 'All' row containing the aggregated values.
     """
-    from pandas.core.reshape.util import cartesian_product
+    def cartesian_product(arrays):
+        # replacement for the pandas-private helper (removed in pandas 3):
+        # all combinations, the first array varying slowest
+        grids = np.meshgrid(*arrays, indexing="ij")
+        return [grid.ravel() for grid in grids]
 
     data = data.sort_index()
     index = data.index
